@@ -86,6 +86,9 @@ type Hooks struct {
 	// (same process, same root) over a kernel socket pair, i.e. everything
 	// goes through the agent protocol.
 	Remote func(session string, alpha bool) bool
+	// OnStage, if non-nil, is called right before an endpoint's Stage call is
+	// forwarded.
+	OnStage func(session string, alpha bool)
 	// Stage / Supply are skipped (reported as fully pre-staged) when
 	// Transition is scripted and this is true.
 	SkipStaging bool
@@ -187,6 +190,9 @@ func (e *journalingEndpoint) Stage(paths []string, digests [][]byte) ([]string, 
 	if h := activeHooks.Load(); h != nil && h.SkipStaging {
 		e.log("stage", "end", nil, "scripted")
 		return nil, nil, nil, nil
+	}
+	if h := activeHooks.Load(); h != nil && h.OnStage != nil {
+		h.OnStage(e.session, e.alpha)
 	}
 	a, b, c, err := e.Endpoint.Stage(paths, digests)
 	e.log("stage", "end", err, "")
